@@ -226,6 +226,22 @@ func SingleConstructs() []*ref.Pat {
 			out = append(out, &ref.Pat{K: "br", Items: []*ref.Pat{{K: "rng", R: r, R2: 0xFF, Spell: 2}}})
 		}
 	}
+	// repetition counts written with leading zeros are decimal numbers (num = {{ digit }})
+	for _, q := range []struct {
+		form     string
+		min, max int
+		operand  *ref.Pat
+	}{
+		{"{08}", 8, 8, &ref.Pat{K: "lit", R: 'a'}},
+		{"{010}", 10, 10, &ref.Pat{K: "lit", R: 'a'}},
+		{"{2,010}", 2, 10, &ref.Pat{K: "br", Items: []*ref.Pat{{K: "rng", R: '0', R2: '9'}}}},
+		{"{011,}", 11, -1, &ref.Pat{K: "lit", R: 'x'}},
+		{"{009}", 9, 9, &ref.Pat{K: "grp", Subs: []*ref.Pat{{K: "cat", Subs: []*ref.Pat{{K: "lit", R: 'a'}, {K: "lit", R: 'b'}}}}}},
+		{"{00,07}", 0, 7, &ref.Pat{K: "lit", R: 'a'}},
+		{"{0012}", 12, 12, &ref.Pat{K: "lit", R: 'b'}},
+	} {
+		out = append(out, &ref.Pat{K: "cat", Subs: []*ref.Pat{{K: "q", QForm: q.form, Min: q.min, Max: q.max, Subs: []*ref.Pat{q.operand}}, {K: "lit", R: 'z'}}})
+	}
 	// the private-use character U+EEEE (the direct construction uses it as its end-marker) and its neighbours
 	for _, p := range []*ref.Pat{
 		{K: "lit", R: 0xEEEE},
